@@ -4,6 +4,7 @@ System under test: real pymoto.solvers.LDAWrapper around real inner solvers; the
 delegate (the `count` seam).  Histories of update()/solve() are generated as data; a single-copy reference model (the
 current matrix + the right-hand sides answered since the last update, per trans mode) decides transparency and reuse.
 """
+import os
 import warnings
 
 import numpy as np
@@ -149,6 +150,11 @@ def enumerated_case(i, tier):
                     flags="explicit", tol=1e-7, nwr=1, ops=ops, cg_tol=[1e-10, 1e-9][(j // 4) % 2])
     if 64 + N_ITER_FAMILY <= i < 64 + N_ITER_FAMILY + N_MIXED_FAMILY:
         j = i - 64 - N_ITER_FAMILY
+        if j in (1, 2):
+            # literal histories of the fixed findings C06-F7 (soak seed 31) and C06-F8 (soak seed 0), see checks/c06_literals.json
+            import json
+            with open(os.path.join(os.path.dirname(os.path.abspath(__file__)), "c06_literals.json")) as f:
+                return json.load(f)[j - 1]
         sd = (lambda q: [527734969, 592492115, 839490429, 873106700, 262143286, 839635873, 290121255][q]) if j == 0 else \
             (lambda q: 77000 + 10 * j + q)
         cf = [[0.47, 1.1], [-1.74, -0.075], [0.73, 1.44]]
